@@ -252,7 +252,12 @@ func (m *CacheMon) End(w *World) {
 	}
 	if r, s, ok := w.Gauges(); ok {
 		if int(r) != len(snap) || int64(s) != total {
-			w.Fail("C09", "gauge-mismatch", "gauges read resources=%v subscriptions=%v but the cache holds %d entries with %d uses", r, s, len(snap), total)
+			var del []string
+			for n := range w.Svc.Deleted {
+				del = append(del, n)
+			}
+			sort.Strings(del)
+			w.Fail("C09", "gauge-mismatch", "gauges read resources=%v subscriptions=%v but the cache holds %d entries with %d uses (resources deleted in this run: %v)", r, s, len(snap), total, del)
 		}
 	}
 }
